@@ -97,10 +97,16 @@ func (s *Sim) RunStep(i int, st Step) (res StepResult, infra error) {
 			b = s.spoilPayout(b, st.BDefect)
 		}
 		res.Block, res.Supp = &b, bs
+		before := blockFingerprint(b, bs)
 		err, pan := s.Validate(b, bs)
 		if pan != nil {
 			res.Mismatches = append(res.Mismatches, Mismatch{"panic", i, lastTag, fmt.Sprint(pan)})
 			return res, nil
+		}
+		if after := blockFingerprint(b, bs); after != before {
+			// validation wrote into the caller's block or supplement: what is applied, reverted and re-applied afterwards is
+			// no longer the block that was validated
+			res.Mismatches = append(res.Mismatches, Mismatch{"input-modified", i, lastTag, "ValidateBlock changed the block or supplement it was given (" + before + " -> " + after + ")"})
 		}
 		res.Err = err
 		res.Accepted = err == nil
@@ -190,4 +196,20 @@ func (s *Sim) spoilPayout(b types.Block, kind string) types.Block {
 		b.Nonce += s.CS.NonceFactor()
 	}
 	return b
+}
+
+// blockFingerprint identifies the content of a block and its supplement (ids of the block and of every transaction,
+// ids and leaf positions of the supplement's elements).
+func blockFingerprint(b types.Block, bs consensus.V1BlockSupplement) string {
+	h := types.NewHasher()
+	b.ID().EncodeTo(h.E)
+	for _, t := range b.Transactions {
+		t.FullHash().EncodeTo(h.E)
+	}
+	for _, t := range b.V2Transactions() {
+		t.FullHash().EncodeTo(h.E)
+	}
+	bs.EncodeTo(h.E)
+	sum := h.Sum()
+	return fmt.Sprintf("%x", sum[:6])
 }
